@@ -123,6 +123,11 @@ func genNotifier(g *gen) {
 				st = g.pick(2, 3, 4, 5, 6)
 			}
 			g.emit("N eval %s %s %d", hexName(cl), hexName(grp), st)
+			if g.chance(1, 12) {
+				// what the evaluator answers for a group it does not know (NOTFOUND) or that has vanished (nil): neither is
+				// an evaluation — the incident, if one is open, stays open
+				g.emit("N eval %s %s %s", hexName(cl), hexName(grp), g.pickS("0", "nil"))
+			}
 			if g.chance(1, 40) {
 				g.emit("N delgroup %s %s", hexName(cl), hexName(grp))
 			}
@@ -357,7 +362,12 @@ func runNotifier(r *runner) {
 			nr.sink = nr.sink[:0]
 			nr.freeze()
 			res := guard(func() string {
-				nr.n.CheckAndSend(&protocol.ConsumerGroupStatus{Cluster: unhexName(f[2]), Group: group, Status: protocol.StatusConstant(atoi(f[4]))})
+				// through the coordinator's REAL responseLoop; "nil" = the evaluator's answer for a vanished group
+				if f[4] == "nil" {
+					nr.n.Deliver(nil)
+				} else {
+					nr.n.Deliver(&protocol.ConsumerGroupStatus{Cluster: unhexName(f[2]), Group: group, Status: protocol.StatusConstant(atoi(f[4]))})
+				}
 				var notes []string
 				for _, n := range nr.sink {
 					id := "-"
